@@ -128,6 +128,28 @@ func c17Boundaries(c *Ctx) {
 		ser := otr3.VerifTLVSer(ts[0])
 		c.AddCase(31, "tlv.serialize", B(ser), tlvVal(ts[0]))
 	}
+	// degenerate MPI lists: empty, all zero-valued (exactly four bytes per element), zero among others, with a tail
+	for _, vals := range [][]int64{{}, {0}, {0, 0}, {0, 0, 0, 0, 0, 0}, {0, 5, 0}, {7, 0}, {0, 0, 255}} {
+		ms := make([]*big.Int, len(vals))
+		for i, v := range vals {
+			ms[i] = big.NewInt(v)
+		}
+		for _, tail := range [][]byte{nil, {9}, {0, 0, 0, 1}} {
+			in := append(otr3.AppendMPIs(otr3.AppendWord(nil, uint32(len(ms))), ms...), tail...)
+			out := guard(func() Val {
+				r, vs, ok := otr3.ExtractMPIs(in)
+				if !ok {
+					return VNone{}
+				}
+				return L(B(r), mpisVal(vs))
+			})
+			if _, none := out.(VNone); none {
+				c.Violate("roundtrip-mismatch", fmt.Sprintf("MPIs,count=%d", len(ms)), "a list of MPIs written by AppendMPIs does not parse back", map[string]string{"in": hex(in)})
+			}
+			c.AddCase(17, "ExtractMPIs", out, B(in))
+		}
+		c.Count("mpi-list:degenerate")
+	}
 	for _, l := range []int{65536} {
 		d := pat(l)
 		c.AddCase(4, "AppendData", B(otr3.AppendData([]byte{7}, d)), B([]byte{7}), B(d))
